@@ -98,8 +98,8 @@ def c061(ctx):
                   "the stamping loop does not iterate batch.entries", pt=n)
     for pt in tsw:
         st = f.blocks[pt[0]].st[pt[1]]
-        names = K.var_names(f, st["rv"]["a"]) if st["rv"].get("a") else set()
-        ctx.check(R, f, "stamp-value", "seq_no" in names, "entries are stamped with the allocated seq_no", "entries are not stamped with the allocated seq_no", pt=pt)
+        sg = K.sig(f, st["rv"]["a"]) if st["rv"].get("a") else set()
+        ctx.check(R, f, "stamp-value", "f:seq_no" in sg, "entries are stamped with the allocated seq_no", "entries are not stamped with the allocated seq_no", pt=pt)
     for pt in seqw:
         st = f.blocks[pt[0]].st[pt[1]]
         srcs, _ = P.value_slice(f, st["rv"]["a"]) if st["rv"].get("a") else ([], set())
